@@ -10,6 +10,8 @@ import BtcVerif.Model.Keys
 import BtcVerif.Proofs.Der
 import BtcVerif.Proofs.Keys
 import BtcVerif.Proofs.Ecdsa
+import BtcVerif.Proofs.CryptoLen
+import BtcVerif.Props.C10
 
 namespace BtcVerif.C14
 open BtcVerif BtcVerif.Crypto
@@ -164,13 +166,24 @@ theorem recoverCompact_length (hash sig : Bytes) (h : sig.length ≠ 65) :
     Model.Keys.recoverCompact hash sig = .error .valueerr := by
   simp [Model.Keys.recoverCompact, h]
 
-/-- `VerifyMessage` answers true only when a key was recovered from (digest, signature), that key's
-    Hash160 is the address payload and the address carries the chain's P2PKH version byte -/
-theorem verify_true_only_if (cv av : Nat) (payload magic msg sig : Bytes)
-    (h : Model.Keys.verifyMessage cv av payload magic msg sig = .ok true) :
+/-- the header arithmetic the header theorems are about is the one `recover_compact` runs -/
+theorem recoverCompact_header (hash : Bytes) (h : UInt8) (body : Bytes) (hl : (h :: body).length = 65) :
+    Model.Keys.recoverCompact hash (h :: body) =
+      match Model.Keys.recover (body.take 32) ((body.drop 32).take 32) hash (Model.Keys.headerDecode h.toNat).1 false with
+      | (1, some Q) => .ok (some (Secp256k1.encode Q (Model.Keys.headerDecode h.toNat).2))
+      | _ => .ok none := by
+  unfold Model.Keys.recoverCompact
+  rw [if_neg (by omega)]
+  rfl
+
+/-- `VerifyMessage` answers true only when a key was recovered from (digest of THIS message, signature)
+    and the text of the given address is, character for character, the text of that key's P2PKH address
+    under the selected chain -/
+theorem verify_true_only_if (cv : Nat) (addrText : List Char) (magic msg sig : Bytes)
+    (h : Model.Keys.verifyMessage cv addrText magic msg sig = .ok true) :
     ∃ digest pk, Model.Keys.msgDigest magic msg = .ok digest ∧
       Model.Keys.recoverCompact digest sig = .ok (some pk) ∧
-      hash160 pk = payload ∧ cv = av := by
+      addrText = Model.Keys.p2pkhText cv pk := by
   unfold Model.Keys.verifyMessage at h
   cases hd : Model.Keys.msgDigest magic msg with
   | error e => simp [hd, bind, Except.bind] at h
@@ -186,29 +199,57 @@ theorem verify_true_only_if (cv av : Nat) (payload magic msg sig : Bytes)
         cases hdec : Secp256k1.decode pk with
         | none => simp [hdec, throw, throwThe, MonadExceptOf.throw] at h
         | some P =>
-          simp [hdec, pure, Except.pure, Model.Keys.p2pkhPayload] at h
-          exact ⟨h.2, h.1⟩
+          simp [hdec, pure, Except.pure] at h
+          exact h.symm
 
-/-- … and conversely it answers true whenever those hold and the key decodes (no further condition) -/
+/-- … and conversely it answers true for that text whenever the key decodes (no further condition) -/
 theorem verify_true_if (cv : Nat) (magic msg sig digest pk : Bytes) (P : Secp256k1.Point)
     (hd : Model.Keys.msgDigest magic msg = .ok digest)
     (hr : Model.Keys.recoverCompact digest sig = .ok (some pk)) (hdec : Secp256k1.decode pk = some P) :
-    Model.Keys.verifyMessage cv cv (hash160 pk) magic msg sig = .ok true := by
+    Model.Keys.verifyMessage cv (Model.Keys.p2pkhText cv pk) magic msg sig = .ok true := by
   unfold Model.Keys.verifyMessage
-  simp [hd, hr, hdec, bind, Except.bind, pure, Except.pure, Model.Keys.p2pkhPayload]
+  simp [hd, hr, hdec, bind, Except.bind, pure, Except.pure]
 
-/-- for any other payload or any other version byte the answer is false (not an exception) -/
-theorem verify_false_other (cv av : Nat) (payload magic msg sig digest pk : Bytes) (P : Secp256k1.Point)
+/-- `verify_false_other`: for ANY address whose text differs from the text of the recovered key's P2PKH
+    address — another key's address, the P2SH or segwit address carrying the same hash160, an address
+    of another chain, anything else with a `__str__` — the answer is false, not an exception -/
+theorem verify_false_other (cv : Nat) (addrText : List Char) (magic msg sig digest pk : Bytes) (P : Secp256k1.Point)
     (hd : Model.Keys.msgDigest magic msg = .ok digest)
     (hr : Model.Keys.recoverCompact digest sig = .ok (some pk)) (hdec : Secp256k1.decode pk = some P)
-    (hne : cv ≠ av ∨ hash160 pk ≠ payload) :
-    Model.Keys.verifyMessage cv av payload magic msg sig = .ok false := by
+    (hne : addrText ≠ Model.Keys.p2pkhText cv pk) :
+    Model.Keys.verifyMessage cv addrText magic msg sig = .ok false := by
   unfold Model.Keys.verifyMessage
-  simp [hd, hr, hdec, bind, Except.bind, pure, Except.pure, Model.Keys.p2pkhPayload]
-  intro h
-  rcases hne with h1 | h1
-  · exact absurd h h1
-  · exact h1
+  simp [hd, hr, hdec, bind, Except.bind, pure, Except.pure]
+  exact fun h => hne h.symm
+
+/-- Base58Check text (with the real checksum hash) determines version byte and payload -/
+theorem base58_text_injective (v v' : UInt8) (p p' : Bytes)
+    (h : Model.Base58.str hash256 ⟨v, p⟩ = Model.Base58.str hash256 ⟨v', p'⟩) : v = v' ∧ p = p' := by
+  have hH : ∀ x, 4 ≤ (hash256 x).length := fun x => by rw [hash256_length]; omega
+  obtain ⟨d, _, hd, h1⟩ := C10.check_roundtrip hash256 hH v p
+  obtain ⟨d', _, hd', h2⟩ := C10.check_roundtrip hash256 hH v' p'
+  subst hd; subst hd'
+  rw [h, h2] at h1
+  simp at h1
+  exact ⟨h1.1.symm, h1.2.symm⟩
+
+/-- for a Base58 address (P2PKH or P2SH of any chain) the decision is: same version byte as the selected
+    chain's PUBKEY_ADDR and payload = Hash160 of the recovered key -/
+theorem verify_base58_address (cv : Nat) (av : UInt8) (payload magic msg sig digest pk : Bytes) (P : Secp256k1.Point)
+    (hd : Model.Keys.msgDigest magic msg = .ok digest)
+    (hr : Model.Keys.recoverCompact digest sig = .ok (some pk)) (hdec : Secp256k1.decode pk = some P) :
+    Model.Keys.verifyMessage cv (Model.Base58.str hash256 ⟨av, payload⟩) magic msg sig =
+      .ok (decide (av = UInt8.ofNat cv ∧ payload = hash160 pk)) := by
+  by_cases h : av = UInt8.ofNat cv ∧ payload = hash160 pk
+  · obtain ⟨h1, h2⟩ := h
+    subst h1; subst h2
+    have := verify_true_if cv magic msg sig digest pk P hd hr hdec
+    simpa [Model.Keys.p2pkhText, Model.Keys.p2pkhPayload] using this
+  · have hne : Model.Base58.str hash256 ⟨av, payload⟩ ≠ Model.Keys.p2pkhText cv pk := by
+      intro he
+      exact h (base58_text_injective _ _ _ _ he)
+    rw [verify_false_other cv _ magic msg sig digest pk P hd hr hdec hne]
+    simp [h]
 
 -- UNPROVED (full statement): on the property's domain the python recovery code, read with the reference
 -- curve in place of OpenSSL, is SEC 1 §4.1.6 (it fails exactly when the reference cannot lift
@@ -220,9 +261,13 @@ theorem verify_false_other (cv av : Nat) (payload magic msg sig digest pk : Byte
 --       Secp256k1.recover (beNat msg) (beNat sigR) (beNat sigS) recid =
 --         (Model.Keys.recover sigR sigS msg recid false).2.bind (fun Q => if Q = .inf then none else some Q)
 --
--- Both sides unfold to the same expression over `liftX` and `mulAdd2`; the proof is a case split, but
--- `simp`/`dsimp` on the unfolded terms (which mention the 256-bit constants) did not terminate within
--- minutes in the time available.  The equality is exercised by the correspondence run instead
+-- Both sides unfold to the same expression over `liftX` and `mulAdd2`; the proof is a case split.  Two
+-- attempts failed for a technical reason: every tactic script that unfolds `Secp256k1.recover` /
+-- `Model.Keys.recover` and then transforms the goal (`simp only`, `dsimp only`, `extract_lets`) elaborates
+-- in under a second, but the kernel does not finish checking the resulting term ("(kernel) deep recursion
+-- detected" / "(kernel) deterministic timeout").  This persists after generalising n, p, G, `mulAdd2`,
+-- `liftX`, `invMod` and `mul` to variables, so it is not the 256-bit constants.  `unfold` followed by
+-- `rw [if_neg …]` alone does check.  The equality is exercised by the correspondence run instead
 -- (`c14.msg` recomputes the key with `Secp256k1.recover`, `c14.recoverCompact` with `Model.Keys.recover`,
 -- both compared with the library on the same signatures).  What is proved of `Model.Keys.recover` is its
 -- use inside `signCompact_layout` above and the abstract algebra of the formula (`recover_correct`).
@@ -243,6 +288,16 @@ theorem recover_correct (C : Ecdsa.Params q E) (d e k : ZMod q) (hk : k ≠ 0) (
 theorem verify_recovered (C : Ecdsa.Params q E) (R : E) (e r s : ZMod q) (hr : r ≠ 0) (hs : s ≠ 0)
     (hR : R ≠ 0) (hf : C.f R = r) : Ecdsa.Verify C (Ecdsa.recoverPoint C R e r s) e r s :=
   Ecdsa.verify_recovered C R e r s hr hs hR hf
+
+/-- `verify_other_message` (conditional form): for a fixed signature `(r, s)` and recovery id (hence a
+    fixed candidate point `R`), recovery is injective in the digest — a digest with another residue
+    mod n recovers ANOTHER key, hence another Hash160 preimage and (unless Hash160 and the digest
+    collide, which no theorem can exclude) another address: `VerifyMessage` compares against the
+    signer's address text and answers false.  Hypotheses that stand for the cryptographic assumptions:
+    the two digests differ as residues mod n (`e ≠ e'`), G ≠ ∞, r ≠ 0. -/
+theorem verify_other_message (C : Ecdsa.Params q E) (R : E) (e e' r s : ZMod q) (hg : C.g ≠ 0) (hr : r ≠ 0)
+    (hne : e ≠ e') : Ecdsa.recoverPoint C R e r s ≠ Ecdsa.recoverPoint C R e' r s :=
+  fun h => hne (Ecdsa.recoverPoint_injective_digest C R e e' r s hg hr h)
 
 end abstract
 
